@@ -11,8 +11,9 @@ DY = [k / 16.0 for k in range(-24, 25) if k != 0]          # dyadic magnitudes 1
 def _specs(dim):
     from plinio.cost import params, ops, params_no_bias, ops_no_bias, gap8_latency
     d = {'params': params, 'ops': ops, 'params_no_bias': params_no_bias, 'ops_no_bias': ops_no_bias}
-    if dim == 2:
-        d['gap8_latency'] = gap8_latency
+    # GAP8 has no model for Conv1d (cost 0 by the spec's default): on 1-D networks only the Linear layers are costed, and the
+    # latency reaches the masks of the convolutions that feed them through in_features
+    d['gap8_latency'] = gap8_latency
     return d
 
 
@@ -38,6 +39,8 @@ def orig_cost_from_shapes(spec, which):
         else:
             kk = [1]
             osp = []
+        if which == 'gap8_latency' and nd['k'] == 'conv1d':
+            continue                      # no GAP8 model: zero
         if which == 'gap8_latency':
             if nd['k'] == 'linear':
                 tot += _fl(cin, 2) * _fl(cout, 4)
@@ -431,6 +434,8 @@ def pit_case(torch, seed, style, full=False):
         for which in names:
             shared = specs[which].shared
             maskers, layers = extract(p, which, shared, full)
+            if which == 'gap8_latency':
+                layers = [L for L in layers if L['kind'] in ('lin', 'c2')]      # Conv1d: no GAP8 model, cost 0 (its maskers stay)
             lit = coq_net(maskers, layers, which, lambda t: [float(v) for v in t.detach().flatten()])   # alpha/beta/gamma attribute: Parameter or (frozen) buffer
             c = p.get_cost(which)
             plist = pid_params(maskers, layers)
